@@ -87,6 +87,8 @@ def make_run(W, shape, known_active=None):
         hs, LOG, ns = ms.instantiate(W)
         ov = Ovld()
         for m in range(M):
+            # return annotations differ from method to method: they play no part in the rule (identical parameter types = identical signature)
+            hs[m].__annotations__ = dict(hs[m].__annotations__, **{"return": (int, str, float, list)[m % 4]})
             ov.register(hs[m], priority=W.prio[m])
         args = [W.inst[c] if c != n else object() for c in argcls]
         kwargs = {"k": (W.inst[kwc] if kwc != n else object())} if kwc is not None else {}
